@@ -1,8 +1,8 @@
 """Which module decides which property."""
-from . import codec, corecheck, mqttcheck, persist, race, savecrash, stable, stream
+from . import codec, corecheck, lifecycle, mqttcheck, persist, race, savecrash, stable, stream
 
 CHECKS = {p: corecheck.check for p in corecheck.PROPS}
-CHECKS.update({"C01": codec.check, "C02": codec.check, "C09": race.check, "C13": persist.check, "C14": persist.check, "C15": savecrash.check, "C17": stream.check, "C18": mqttcheck.check, "C19": stable.check})
+CHECKS.update({"C01": codec.check, "C02": codec.check, "C09": race.check, "C13": persist.check, "C14": persist.check, "C15": savecrash.check, "C17": stream.check, "C18": mqttcheck.check, "C19": stable.check, "C16": lifecycle.check})
 
 
 def replay(doc: dict) -> int:
@@ -11,6 +11,8 @@ def replay(doc: dict) -> int:
         return corecheck.replay(doc)
     if kind in ("persist-load", "persist-roundtrip"):
         return persist.replay(doc)
+    if kind == "lifecycle-run":
+        return lifecycle.replay(doc)
     if kind == "stable-pair":
         return stable.replay(doc)
     if kind == "mqtt-run":
